@@ -243,10 +243,10 @@ def spec(tier, seed, repo):
                       total_timeout=3600 if q else 4 * 3600)],
         level="exploration",
         rule="one 'run' case = one SimNet scenario (scheme, n, t, faulty signer set, fault mode, repetition): key "
-             "generation, then signing phases (threshold Schnorr: the five catalogue messages; threshold DSS: fresh, "
+             "generation, then signing phases (threshold Schnorr: the five catalogue messages 0, 1, q-1, q, random 256 bit; threshold DSS: fresh, "
              "after Refresh, reduced signer set of n-1) with seeded scheduling; evaluations = outputs of honest parties "
              "whose Sign returned true (each judged offline by the Python reference), distinct = signing phases with at "
-             "least one such output; one 'vp' case = the range-boundary catalogue (29 mutations x 5 messages) around "
+             "least one such output; one 'vp' case = the range-boundary catalogue (29 mutations x 6 messages) around "
              "textbook signatures on one group, evaluations = probes whose library verdict is compared with the reference",
         assumptions=[
             "synchronous network in its strongest form: virtual time advances only when no party can run",
